@@ -101,6 +101,7 @@ def run(ctx):
         ctx.cov["kill_mode_hist"][k] = ctx.cov["kill_mode_hist"].get(k, 0) + 1
     ctx.cov["aimed_kills_that_saw_an_empty_log_file"] = sum(1 for r in cyc if r.get("aimed_at"))
     ctx.cov["kills_leaving_empty_log_files_hist"] = hist([len(r.get("empty_left") or []) for r in cyc], [0, 1, 2, 3])
+    ctx.cov["reopens_with_planted_empty_memtable_file"] = sum(1 for r in cyc if r.get("planted"))
     ctx.cov["kill_delay_ms_hist"] = hist([r["delay_ms"] for r in cyc], [0, 2, 10, 50, 150, 300])
     ctx.cov["reopen_ms_hist"] = hist([r["reopen_ms"] for r in cyc], [50, 100, 200, 500, 2000])
     ctx.cov["reopens_ok"] = sum(1 for r in cyc if r["reopen_ok"])
